@@ -33,9 +33,11 @@ import (
 	"github.com/ozontech/seq-db/consts"
 	"github.com/ozontech/seq-db/disk"
 	"github.com/ozontech/seq-db/frac"
+	"github.com/ozontech/seq-db/frac/processor"
 	"github.com/ozontech/seq-db/fracmanager"
 	"github.com/ozontech/seq-db/logger"
 	"github.com/ozontech/seq-db/mappingprovider"
+	"github.com/ozontech/seq-db/metric/stopwatch"
 	pb "github.com/ozontech/seq-db/pkg/storeapi"
 	"github.com/ozontech/seq-db/seq"
 	"github.com/ozontech/seq-db/storeapi"
@@ -85,6 +87,8 @@ type scenario struct {
 	DocBlockSize int `json:"doc_block_size,omitempty"`
 	// SkipSortDocs: frac.Config.SkipSortDocs (sealing keeps the active fraction's docs file instead of writing a sorted one)
 	SkipSortDocs bool `json:"skip_sort_docs,omitempty"`
+	// BulkDocs: documents per ingested bulk (0 = 256); one bulk is one docs block of the active fraction
+	BulkDocs int `json:"bulk_docs,omitempty"`
 }
 
 // docBytes is the document ingested under (mid, rid) with the given size (>= 2): valid JSON, content unique per
@@ -160,6 +164,10 @@ func newStore(sc *scenario) (*store, error) {
 	}, fm, mp)
 	st := &store{dir: dir, fm: fm, g: g}
 	ctx := context.Background()
+	bulkDocs := sc.BulkDocs
+	if bulkDocs == 0 {
+		bulkDocs = 256
+	}
 	for k, f := range sc.Fracs {
 		// ingest in bulks of at most 256 docs (several doc blocks per fraction), big docs one per bulk
 		dp := frac.NewDocProvider()
@@ -182,7 +190,7 @@ func newStore(sc *scenario) (*store, error) {
 			doc := docBytes(d.MID, d.RID, d.Size)
 			dp.Append(doc, nil, seq.ID{MID: seq.MID(d.MID), RID: seq.RID(d.RID)}, seq.Tokens("_all_:", "service:c04"))
 			pending += len(doc)
-			if dp.DocCount >= 256 || pending > 1<<20 {
+			if dp.DocCount >= max(1, bulkDocs) || pending > 4<<20 {
 				if err := flush(); err != nil {
 					return nil, err
 				}
@@ -886,12 +894,35 @@ func genScenario(r *vh.RNG, name string, shape int, thorough bool) scenario {
 		for i := 0; i < 6; i++ {
 			sc.Reqs = append(sc.Reqs, genRequest(r, sc.Fracs, 1+r.Intn(12), []int{0, 20, 50}[r.Intn(3)], absentClasses, r.Intn(3) == 0, orders[r.Intn(3)]))
 		}
+	case 9: // thousands of tiny documents in ONE docs block, most of them asked for in one request
+		n := 5000 + r.Intn(2000)
+		f := fracSpec{Sealed: r.Bool()}
+		for i := 0; i < n; i++ {
+			f.Docs = append(f.Docs, docSpec{MID: 1_700_000_000_000 + uint64(i/4), RID: uint64(1000 + 2*(i%4)), Size: 2 + r.Intn(40)})
+		}
+		sc.Fracs = []fracSpec{f}
+		if r.Bool() {
+			sc.Fracs = append(sc.Fracs, genFracs(r, 1, 6, small, true)...)
+		}
+		sc.BulkDocs = 100000
+		for _, m := range []int{3100 + r.Intn(300), 4400 + r.Intn(500)} {
+			p := r.Perm(n)[:m]
+			rq := request{Class: fmt.Sprintf("many-docs-of-one-block n=%s hints=0", bucket(m))}
+			for _, pi := range p {
+				d := f.Docs[pi]
+				rq.IDs = append(rq.IDs, reqID{MID: d.MID, RID: d.RID, Hint: -1})
+			}
+			sc.Reqs = append(sc.Reqs, rq)
+		}
 	case 4: // 100k IDs, mostly absent, over one mid-sized fraction pair
 		sc.Fracs = genFracs(r, 2, 3000, func() int { return 200 + r.Intn(200) }, false)
 		sc.Reqs = append(sc.Reqs, genRequest(r, sc.Fracs, 100000, 95, []string{"inside", "above-all", "below-all"}, false, "random"))
 	}
 	// sealed fractions with one docs block (default) or many (small DocBlockSize): several seals in one process
 	sc.DocBlockSize = []int{0, 64, 300, 2000}[r.Intn(4)]
+	if shape == 9 {
+		sc.DocBlockSize = 0 // the sealed fraction keeps all the tiny documents in one block
+	}
 	sc.SkipSortDocs = r.Intn(3) == 0 // the non-default sealing mode: the sealed fraction reads the active fraction's docs file
 	return sc
 }
@@ -919,7 +950,7 @@ func classify(res string, stderr string, died, timeout bool) (site, class string
 }
 
 func scenarioLine(sc *scenario, only int) string {
-	c := scenario{Name: sc.Name, Fracs: sc.Fracs, DocBlockSize: sc.DocBlockSize, SkipSortDocs: sc.SkipSortDocs}
+	c := scenario{Name: sc.Name, Fracs: sc.Fracs, DocBlockSize: sc.DocBlockSize, SkipSortDocs: sc.SkipSortDocs, BulkDocs: sc.BulkDocs}
 	if only >= 0 {
 		c.Reqs = []request{sc.Reqs[only]}
 	} else {
@@ -952,7 +983,7 @@ func minimise(sc scenario, site, class string, budget int) scenario {
 				}
 			}
 		}
-		return &scenario{Name: sc.Name, Fracs: fracs, DocBlockSize: sc.DocBlockSize, SkipSortDocs: sc.SkipSortDocs, Reqs: []request{{Class: sc.Reqs[0].Class, IDs: ids, Late: late}}}
+		return &scenario{Name: sc.Name, Fracs: fracs, DocBlockSize: sc.DocBlockSize, SkipSortDocs: sc.SkipSortDocs, BulkDocs: sc.BulkDocs, Reqs: []request{{Class: sc.Reqs[0].Class, IDs: ids, Late: late}}}
 	}
 	// 1. drop requested IDs
 	ids := sc.Reqs[0].IDs
@@ -1522,6 +1553,91 @@ func plus[T ~int | ~uint64](xs []T) string {
 	return strings.Join(ss, "+")
 }
 
+// fakeIndex is a fetch index whose documents say where they were read from.
+type fakeIndex struct{ pos []seq.DocPos }
+
+func (f *fakeIndex) GetBlocksOffsets(b uint32) uint64  { return uint64(b) * 1000 }
+func (f *fakeIndex) GetDocPos([]seq.ID) []seq.DocPos   { return f.pos }
+func (f *fakeIndex) ReadDocs(blockOffset uint64, docOffsets []uint64) ([][]byte, error) {
+	res := make([][]byte, len(docOffsets))
+	for i, o := range docOffsets {
+		res[i] = []byte(fmt.Sprintf("%d.%d", blockOffset/1000, o))
+	}
+	return res, nil
+}
+
+// indexFetchChannel: the real processor.IndexFetch over a fetch index whose documents name (block, offset) vs
+// SV.Fetch.indexFetch.
+func indexFetchChannel(o vh.Opts, r *vh.RNG) *vh.Channel {
+	ch := vh.NewChannel("indexfetch", "processor.IndexFetch (GroupDocsOffsets, per-block ReadDocs, scatter) over a fetch index whose documents are named by the (block, offset) they are read from vs SV.Fetch.indexFetch: requests with 1, 2047, 2048, 2049, 4097 and random numbers of documents of ONE block, several blocks interleaved, not-found entries in between; non-trivial = a block with more than one requested document and a not-found entry")
+	run := func(pos []seq.DocPos, tag string) {
+		res := make([][]byte, len(pos))
+		impl := ""
+		if err := processor.IndexFetch(make([]seq.ID, len(pos)), stopwatch.New(), &fakeIndex{pos}, res); err != nil {
+			impl = "err"
+		} else {
+			ts := make([]string, len(res))
+			for i, d := range res {
+				if d == nil {
+					ts[i] = "-"
+				} else {
+					ts[i] = string(d)
+				}
+			}
+			impl = "ok " + vh.JoinStrs(ts, ",")
+		}
+		raw := make([]uint64, len(pos))
+		nf := 0
+		for i, p := range pos {
+			raw[i] = uint64(p)
+			if p == seq.DocPosNotFound {
+				nf++
+			}
+		}
+		ch.Add(fmt.Sprintf("indexfetch 30 %s", vh.JoinInts(raw)), impl, nf > 0 && len(pos)-nf > 1, tag)
+	}
+	sizes := []int{1, 2, 100, 2047, 2048, 2049, 4097}
+	if o.Thorough() {
+		sizes = append(sizes, 4095, 4096, 6145, 10000)
+	}
+	for _, n := range sizes {
+		for variant := 0; variant < 3; variant++ {
+			var pos []seq.DocPos
+			perm := r.Perm(n)
+			for i := 0; i < n; i++ {
+				switch variant {
+				case 0: // one block only
+					pos = append(pos, seq.PackDocPos(3, uint64(perm[i])*8))
+				case 1: // one block, not-found entries in between
+					pos = append(pos, seq.PackDocPos(3, uint64(perm[i])*8))
+					if r.Intn(10) == 0 {
+						pos = append(pos, seq.DocPosNotFound)
+					}
+				default: // a second block interleaved
+					pos = append(pos, seq.PackDocPos(3, uint64(perm[i])*8))
+					if r.Intn(3) == 0 {
+						pos = append(pos, seq.PackDocPos(7, uint64(i)*8))
+					}
+				}
+			}
+			run(pos, fmt.Sprintf("one-block-n=%d", n))
+		}
+	}
+	for i := 0; i < o.Pick(100, 1500); i++ {
+		n := r.Intn(60)
+		var pos []seq.DocPos
+		for j := 0; j < n; j++ {
+			if r.Intn(5) == 0 {
+				pos = append(pos, seq.DocPosNotFound)
+			} else {
+				pos = append(pos, seq.PackDocPos(uint32(r.Intn(5)), uint64(r.Intn(100000))))
+			}
+		}
+		run(pos, "random")
+	}
+	return ch
+}
+
 // filterStatsChannel: metaDataCollector.Filter (through C17's collector wrapper) vs SV.Fetch.filterStats / keptIDs.
 func filterStatsChannel(o vh.Opts, r *vh.RNG) *vh.Channel {
 	ch := vh.NewChannel("filterstats", "metaDataCollector.Filter(appended) after AppendMeta of a bulk's ids: MinMID, MaxMID and the kept ids vs SV.Fetch.filterStats / keptIDs. Exhaustive: every ordered selection of 1..4 out of 5 ids (3 timestamps) x every subset as the appended set; then random bulks of up to 30 ids in random, ascending and descending order; non-trivial = some but not all ids appended")
@@ -1907,6 +2023,9 @@ func main() {
 		rep.AddChannel(b, o.Driver)
 		rep.AddChannel(c, o.Driver)
 	}
+	if run("indexfetch") {
+		rep.AddChannel(indexFetchChannel(o, vh.NewRNG(o.Seed+77)), o.Driver)
+	}
 	if run("filterstats") {
 		rep.AddChannel(filterStatsChannel(o, rng.Fork()), o.Driver)
 	}
@@ -1918,10 +2037,10 @@ func main() {
 	}
 	if run("fetch.stream") {
 		r := rng.Fork()
-		shapes := []int{0, 0, 0, 1, 1, 2, 3, 5, 6, 7, 7, 8, 8}
+		shapes := []int{0, 0, 0, 1, 1, 2, 3, 5, 6, 7, 7, 8, 8, 9, 9}
 		if o.Thorough() {
 			shapes = nil
-			for sh, n := range []int{60, 20, 8, 6, 2, 12, 6, 16, 16} {
+			for sh, n := range []int{60, 20, 8, 6, 2, 12, 6, 16, 16, 8} {
 				for i := 0; i < n; i++ {
 					shapes = append(shapes, sh)
 				}
